@@ -22,17 +22,17 @@ TSend ==
 
 TMsg ==
   /\ IsEvent("msg")
-  /\ CASE R.kind = "update_add_htlc" -> SAdd(R.from, R.chan, R.id, R.hash)
+  /\ CASE R.kind = "update_add_htlc" -> SAdd(R.from, R.chan, R.id, R.hash, R.amt)
        [] R.kind = "update_fail_htlc" -> SFailMsg(R.chan, R.to, R.id)
        [] R.kind = "update_fulfill_htlc" -> Stutter
-       [] OTHER -> FALSE          \* an `error` message: never on an honest run
+       [] OTHER -> stale /\ Stutter   \* an `error` message: only about channels a stale restart closed
 
 TDeliver ==
   /\ IsEvent("deliver")
   /\ CASE R.kind = "update_add_htlc" -> SGotAdd(R.to)
        [] R.kind = "update_fulfill_htlc" -> SResolve(R.chan, R.to, R.id, "ful")
        [] R.kind = "update_fail_htlc" -> SResolve(R.chan, R.to, R.id, "fail")
-       [] OTHER -> FALSE
+       [] OTHER -> stale /\ Stutter
 
 TClaim == IsEvent("claim") /\ SClaimCall(R.hash)
 
@@ -44,7 +44,11 @@ TEvent ==
        [] OTHER -> Stutter
 
 TSave == IsEvent("save") /\ SSave(R.node)
-TRestart == IsEvent("restart") /\ SRestart(R.node)
+TRestart == IsEvent("restart") /\ SRestart(R.node, R.stale)
+
+TChain ==
+  /\ IsEvent("chain")
+  /\ IF R.what = "commitment" THEN SChainCommit(R.chan, SeqSet(R.outs)) ELSE SChainHtlc(R.chan, R.hash, R.preimage)
 TRecent ==
   /\ IsEvent("recent")
   /\ IF R.after_restart THEN SRecentAfterRestart(R.node, {R.list[k].pid : k \in 1..Len(R.list)}) ELSE Stutter
@@ -52,16 +56,18 @@ TRecent ==
 TQuiet ==
   /\ IsEvent("quiet")
   /\ R.queued = 0
-  /\ R.closed \/ SQuietOK([n \in DOMAIN initBal |-> R.nodes[n + 1].bal],
-                          {n \in DOMAIN initBal : R.nodes[n + 1].htlcs = 0 /\ ~R.nodes[n + 1].floor})
+  /\ IF ~R.closed
+     THEN SQuietOK([n \in DOMAIN initBal |-> R.nodes[n + 1].bal],
+                   {n \in DOMAIN initBal : R.nodes[n + 1].htlcs = 0 /\ ~R.nodes[n + 1].floor})
+     ELSE R.settled => SQuietChainOK
   /\ Stutter
 
 TOther ==
   /\ l <= Len(Rec)
-  /\ Rec[l].ev \in {"reg", "failback", "forward", "tick", "block", "disconnect", "reconnect", "handled", "abandon", "broadcast"}
+  /\ Rec[l].ev \in {"reg", "failback", "forward", "tick", "block", "disconnect", "reconnect", "handled", "abandon", "broadcast", "settle_chain", "settled", "mine_skipped"}
   /\ l' = l + 1 /\ Stutter
 
-TraceNext == TOpen \/ TSend \/ TMsg \/ TDeliver \/ TClaim \/ TEvent \/ TSave \/ TRestart \/ TRecent \/ TQuiet \/ TOther
+TraceNext == TOpen \/ TSend \/ TMsg \/ TDeliver \/ TClaim \/ TEvent \/ TSave \/ TRestart \/ TRecent \/ TChain \/ TQuiet \/ TOther
 
 TraceSpec == TraceInit /\ [][TraceNext]_tvars
 
